@@ -21,11 +21,13 @@ import (
 	"os"
 	"path/filepath"
 	"reflect"
+	"runtime"
 	"sort"
 	"strings"
 	"testing"
 
 	"github.com/vishvananda/netlink"
+	"golang.org/x/sys/unix"
 	utilfeature "k8s.io/apiserver/pkg/util/feature"
 	"pgregory.net/rapid"
 
@@ -275,19 +277,61 @@ func c20Isolated() bool {
 	return true
 }
 
-func c20SetCiliumNet(c *vt.Ctx, want bool) {
-	l, err := netlink.LinkByName("cilium_net")
-	have := err == nil
-	if have == want {
-		return
+// Presence of the cilium_net link is switched by moving the (locked) test thread
+// between two network namespaces: the private one the driver started the binary in
+// (no cilium_net) and a second one created here that holds a veth named cilium_net.
+// Creating/deleting the link per case would cost ~10 ms of kernel RCU waits each.
+// netlink's package handle opens its socket per request on the calling thread, and
+// rapid runs the property on the calling goroutine, so the code under test sees the
+// namespace chosen for the case.
+var c20NS struct {
+	ready         bool
+	with, without int
+}
+
+func c20SetupNetNS() error {
+	if c20NS.ready {
+		return nil
 	}
-	if want {
-		err = netlink.LinkAdd(&netlink.Veth{LinkAttrs: netlink.LinkAttrs{Name: "cilium_net"}, PeerName: "cilium_host"})
-	} else {
-		err = netlink.LinkDel(l)
-	}
+	runtime.LockOSThread() // stays locked: the thread's namespace is no longer the process default
+	const self = "/proc/thread-self/ns/net"
+	without, err := unix.Open(self, unix.O_RDONLY|unix.O_CLOEXEC, 0)
 	if err != nil {
-		c.Inconclusive(fmt.Sprintf("cannot set link cilium_net present=%v: %v", want, err))
+		return err
+	}
+	if l, err := netlink.LinkByName("cilium_net"); err == nil {
+		if err := netlink.LinkDel(l); err != nil {
+			return err
+		}
+	}
+	if err := unix.Unshare(unix.CLONE_NEWNET); err != nil {
+		return err
+	}
+	with, err := unix.Open(self, unix.O_RDONLY|unix.O_CLOEXEC, 0)
+	if err != nil {
+		return err
+	}
+	if err := netlink.LinkAdd(&netlink.Veth{LinkAttrs: netlink.LinkAttrs{Name: "cilium_net"}, PeerName: "cilium_host"}); err != nil {
+		return err
+	}
+	c20NS.with, c20NS.without, c20NS.ready = with, without, true
+	return nil
+}
+
+func c20SetCiliumNet(c *vt.Ctx, want bool) {
+	if err := c20SetupNetNS(); err != nil {
+		c.Inconclusive("network namespaces: " + err.Error())
+	}
+	fd := c20NS.without
+	if want {
+		fd = c20NS.with
+	}
+	if err := unix.Setns(fd, unix.CLONE_NEWNET); err != nil {
+		c.Inconclusive("setns: " + err.Error())
+	}
+	_, err := netlink.LinkByName("cilium_net")
+	if (err == nil) != want {
+		c.Inconclusive(fmt.Sprintf("link cilium_net present=%v, wanted %v (%v)", err == nil, want, err))
 	}
 }
 
@@ -613,11 +657,27 @@ func runC20Chain(c *vt.Ctx, s c20ChainScenario) {
 		case vethReq && provider == NetworkPolicyProviderEBPF:
 			c.Label("decision:veth+ebpf-provider(has_cilium_chainer record)")
 			c.NonTrivial()
+			c.Labelf("env:veth+ebpf-provider recorded-chainer=%q -> %s", c20Recorded(s, nodecap.NodeCapabilityHasCiliumChainer), selected)
 		case reqType == dataPathIPvlan && s.Gate:
 			c.Label("decision:ipvlan+gate(datapath record)")
 			c.NonTrivial()
+			// evidence that the per-case environment reaches the code under test
+			c.Labelf("env:ipvlan+gate recorded-v2=%v cilium_net=%v -> %s", c20Recorded(s, nodecap.NodeCapabilityDataPath) == dataPathV2, s.CiliumNet, selected)
 		}
 	}
+}
+
+// c20Recorded returns the recorded value of a capability ("<none>" if not recorded).
+func c20Recorded(s c20ChainScenario, key string) string {
+	v := "<none>"
+	if s.CapFile {
+		for _, kv := range s.Caps {
+			if kv[0] == key {
+				v = kv[1]
+			}
+		}
+	}
+	return v
 }
 
 // c20KnownBandwidthPassthrough: finding C20-noebpf-bandwidth-passthrough — on a kernel
